@@ -261,7 +261,7 @@ type kase struct {
 	setAside string // a listed finding was met: the rest of the case is not judged
 
 	// shapes and counters
-	nTicks, nRounds, nRefused, nRecv, nMergeInSec, nAbortAfterMerge, nTickInSec, nBudgetShape int
+	nTicks, nRounds, nRefused, nRecv, nMergeInSec, nAbortAfterMerge, nTickInSec, nBudgetShape, nCommitInFlight int
 	tickBetweenWriteAndEnd, mergeInSecThenAbort                                               bool
 }
 
@@ -767,6 +767,58 @@ func (c *kase) doTick(i int, refuseAll bool, refusePeer int) (ran bool) {
 	return owedBefore > 0
 }
 
+// doTickCommitInFlight (flaky payload only): a round of node i starts; while its calls are in flight (every
+// receiver is held while decoding the state) node i commits a section; then the calls complete. The
+// round carried the state committed before it started, so the new commit is still owed afterwards.
+func (c *kase) doTickCommitInFlight(i int, peers int) {
+	nd := c.nodes[i]
+	knowBefore := append([]int(nil), nd.know...)
+	_, owedBefore := resources.VerifCRDTPending(nd.res)
+	arrivedCh, release := holdFrom(i)
+	done := make(chan *hx.PanicError, 1)
+	go func() { done <- hx.Catch(func() { resources.VerifCRDTBroadcast(nd.res) }) }()
+	// one held receiver is enough to know that the round has taken its snapshot and that its calls are in flight
+	// (every other receiver is held as well, whenever it gets there)
+	select {
+	case <-arrivedCh:
+	case <-time.After(3 * time.Second):
+		release()
+		<-done
+		inconclusive("no peer received the state of node %d's round", i)
+	}
+	c.nTicks++
+	c.nRounds++
+	c.nCommitInFlight++
+	c.logf("n%d tick: round runs (owed %d); its calls are in flight ...", i, owedBefore)
+	if !nd.open {
+		c.doWrite(i, &upd{})
+	}
+	c.doCommit(i, " (while the round of this node is in flight)")
+	release()
+	select {
+	case p := <-done:
+		if p != nil {
+			c.failf("broadcast panicked: %v", p)
+		}
+	case <-time.After(rpcTimeout):
+		c.failf("the broadcast round of node %d did not finish within %v", i, rpcTimeout)
+	}
+	_, owedAfter := resources.VerifCRDTPending(nd.res)
+	c.logf("n%d ... the round's calls complete (owed now %d)", i, owedAfter)
+	// specification: the peers learn what node i had committed when the round started; their replies carry their
+	// committed state back; node i still owes the section it committed meanwhile
+	back := append([]int(nil), nd.know...)
+	for p := 0; p < c.n; p++ {
+		if p != i {
+			c.arrived(p)
+			maxInto(back, c.nodes[p].know)
+			maxInto(c.nodes[p].know, knowBefore)
+		}
+	}
+	nd.know = back
+	c.settle(fmt.Sprintf("after the in-flight round of node %d", i))
+}
+
 // doRecv: node p receives, through ReceiveValue, the state node j would broadcast right now.
 func (c *kase) doRecv(p, j int) {
 	c.logf("n%d receives the stable state of n%d", p, j)
@@ -1077,6 +1129,30 @@ func runCase(t *rapid.T, k kind) {
 			}
 			c.doTick(i, refuse, -1)
 		},
+		"tick, commit while the round is in flight": func(t *rapid.T) {
+			if !k.flaky {
+				t.Skip("needs the gated payload")
+			}
+			i := pickNode(t, "node")
+			nd := c.nodes[i]
+			if c.avoid && nd.open {
+				t.Skip("known shapes avoided: no round of a node whose section is open")
+			}
+			if _, owed := resources.VerifCRDTPending(nd.res); owed == 0 {
+				t.Skip("no round would run")
+			}
+			if !nd.open && len(c.upds) >= maxCounterOps {
+				t.Skip("no increments left")
+			}
+			if c.setAside != "" {
+				return
+			}
+			peers := c.n - 1
+			if withSelf[i] {
+				peers = c.n
+			}
+			c.doTickCommitInFlight(i, peers)
+		},
 		"recv": func(t *rapid.T) {
 			p := pickNode(t, "node")
 			j := rapid.IntRange(0, c.n-2).Draw(t, "from")
@@ -1108,6 +1184,7 @@ func runCase(t *rapid.T, k kind) {
 	vstat.ClassN("merges-during-open-section", int64(c.nMergeInSec))
 	vstat.ClassN("aborts-after-merge", int64(c.nAbortAfterMerge))
 	vstat.ClassN("commits-after-own-tick", int64(c.nBudgetShape))
+	vstat.ClassN("commits-while-own-round-in-flight", int64(c.nCommitInFlight))
 	vstat.ClassN(k.name+".updates", int64(len(c.upds)))
 	if c.tickBetweenWriteAndEnd && c.mergeInSecThenAbort {
 		h := c.render()
